@@ -67,10 +67,11 @@ Qed.
 Ltac safe_conj :=
   first [ exact I
         | left; reflexivity
+        | solve [left; repeat split; reflexivity]
         | solve [vm_compute; discriminate]
         | solve [intros H; vm_compute in H; first [contradiction | destruct H as [? ?]; discriminate | destruct H as [? [? ?]]; discriminate | destruct H as [? [? H']]; vm_compute in H'; discriminate]] ].
 Ltac safe_leaf :=
-  first [ exact I | left; reflexivity | discriminate
+  first [ exact I | left; reflexivity | (left; repeat split; reflexivity) | discriminate
         | intros H; first [contradiction | discriminate H
                           | destruct H as [H1 H2]; first [discriminate H1|discriminate H2]
                           | destruct H as [H1 [H2 H3]]; first [discriminate H1|discriminate H2|discriminate H3]] ].
@@ -88,7 +89,7 @@ Record refutes (k : nat) (x : state) (f : fault) (o : op) : Prop := mkRef {
   r_t2 : k <> 2%nat -> ~ trig_readless_pub wit_sm x o;
   r_t3 : k <> 3%nat -> ~ trig_offline_setsub x o;
   r_fo : k <> 4%nat -> fault_ok wit_sm f x o;
-  r_bad : ~ coherent (fst (step_i wit_sm f x o)) }.
+  r_bad : ~ coherent (fst (step del_ranges_i norm_ranges_i wit_sm f x o)) }.
 
 Ltac hyp_tac := first [ intros NE; exfalso; apply NE; reflexivity | intros _; safe_conj ].
 
